@@ -81,6 +81,13 @@ PLANS = {
         rule='each case = (d,w,base) and (d,w,base+o) for o in {max_wrap_width(m), pad_block_width, unicode_strikeout(false), no_table_borders, raw_mode, link_footnotes(false), no_link_wrapping, min_wrap_width(k)}; half of the documents have nothing the option applies to; non-trivial = the two results differ; distinct by sha256(runs)',
         assumptions=['the per-option relation is the one written next to P_C15 in spec/Props.tla'],
     ),
+    'C14': dict(
+        fams=[('c14', dict(quick=3000, thorough=60000), {})],
+        mc=[MC_WRAP_MARKS],
+        nontrivial=lambda rec: bool(rec.get('runs')) and rec['runs'][0]['res']['k'] == 'ok' and any(x[0] == -1 for ln in rec['runs'][0]['res']['lines'] for x in ln),
+        rule='MC: MC_Wrap with fragment markers and tag switches at every position relative to wrap points (Inv_Frags conservation in every state); random: grammar documents with unique ids / anchor names on random elements (p, div, span, em, a[name], li, ul, ol, blockquote, h*, pre, td, tr, table, dl/dt/dd), widths 1..100 with half of them <= 12; runs: lines route, string route with and without the ids; non-trivial = Ok and at least one marker; distinct by sha256(runs)',
+        assumptions=['the position clause is evaluated on table-free documents (letters before the marker = letters before the element in V(d)); ids on elements without visible text may or may not yield a marker'],
+    ),
     'C03': dict(
         fams=[('c03', dict(quick=3000, thorough=60000), {})],
         mc=[MC_WRAP_MARKS, MC_BLOCK],
